@@ -223,14 +223,17 @@ struct Scenario {
     strategy: Strategy,
     /// explicit decision list (replay) — empty when the schedule is to be drawn from the PRNG
     schedule: Option<Vec<u8>>,
+    /// some addend is (or, before `resolve` replaced it, was) an address of this process
+    addr_dep: bool,
 }
 
 impl Scenario {
     fn addr_dependent(&self) -> bool {
-        self.execs.iter().any(|e| e.adds.iter().any(|a| a.src_is_base))
+        self.addr_dep || self.execs.iter().any(|e| e.adds.iter().any(|a| a.src_is_base))
     }
     /// Fill in the addends that are addresses (base register used as source).
     fn resolve(&mut self, region_addr: u64) {
+        self.addr_dep = self.addr_dependent();
         for e in self.execs.iter_mut() {
             for a in e.adds.iter_mut() {
                 if a.src_is_base {
@@ -536,7 +539,7 @@ impl Scenario {
             });
         }
         let schedule = if v["schedule"].is_null() { None } else { Some(v["schedule"].members().map(|x| x.as_u8().unwrap_or(0)).collect()) };
-        Some(Scenario { region_len, init, execs, strategy: Strategy::Uniform, schedule })
+        Some(Scenario { region_len, init, execs, strategy: Strategy::Uniform, schedule, addr_dep: false })
     }
 }
 
@@ -677,9 +680,10 @@ fn generate(rng: &mut Rng) -> Scenario {
                     2 => 1,
                     _ => rng.next_u64() as i32,
                 };
-                // the unsigned 64-bit comparisons only get non-negative immediates: the engines
-                // disagree on how a negative one is widened (a matter of C01/C03, not of this check)
-                let jmp_imm = if jmp & 7 == 5 && matches!(jmp & 0xf0, 0x20 | 0x30 | 0xa0 | 0xb0) { jmp_imm & 0x7fff_ffff } else { jmp_imm };
+                // jeq/jne and the unsigned 64-bit comparisons only get non-negative immediates: the
+                // interpreter zero-extends the immediate of these six, the compilers sign-extend it
+                // (a matter of C01/C03, not of this check)
+                let jmp_imm = if jmp & 7 == 5 && matches!(jmp & 0xf0, 0x10 | 0x50 | 0x20 | 0x30 | 0xa0 | 0xb0) { jmp_imm & 0x7fff_ffff } else { jmp_imm };
                 let g = Guard { pre, alu, alu_imm, jmp, jmp_imm, skip: rng.range(1, 2) as u8 };
                 // ... and the register tested is always the sign extension of its low half, so that
                 // comparing 32 or 64 bits gives the same answer (the Cranelift translation compares
@@ -764,7 +768,7 @@ fn generate(rng: &mut Rng) -> Scenario {
         1 => Strategy::Sticky(rng.range(1, 8) as u8),
         _ => Strategy::Pct(rng.range(1, 4) as u8),
     };
-    Scenario { region_len, init, execs, strategy, schedule: None }
+    Scenario { region_len, init, execs, strategy, schedule: None, addr_dep: false }
 }
 
 // ---------------------------------------------------------------------------------------------
@@ -1369,7 +1373,7 @@ fn minimise(sc: &Scenario, class: &str) -> (Scenario, usize) {
     let mut evals = 0usize;
     // every variant that runs into the CPU budget costs seconds: give up on minimising after a few
     let fired0 = sched::WATCHDOG_FIRED.load(std::sync::atomic::Ordering::Relaxed);
-    let budget = || if sched::WATCHDOG_FIRED.load(std::sync::atomic::Ordering::Relaxed) - fired0 > 3 { 0usize } else { 400usize };
+    let budget = || if sched::WATCHDOG_FIRED.load(std::sync::atomic::Ordering::Relaxed) - fired0 > 1 { 0usize } else { 400usize };
     // drop executions (thread ids in the schedule are remapped)
     let mut i = 0;
     while i < cur.execs.len() && cur.execs.len() > 1 && evals < budget() {
